@@ -101,6 +101,7 @@ func (q c03Query) text() string {
 type answer struct {
 	vids   []int64          // filter: sorted; sort: in returned order
 	recs   map[int64]string // canonical record text by _vid
+	raw    map[int64]sut.Record
 	groups map[string]map[string]sut.TV
 	rej    string
 }
@@ -204,6 +205,73 @@ func canonRecord(r sut.Record, mixed map[string]bool) string {
 	return sb.String()
 }
 
+// recordsSameByValue decides two renderings of one event whose canonical texts differ. In a column that
+// holds several kinds in the dataset a float (or a numeric text) may come back as a float under one layout
+// and as its decimal text under another; the text of a float is its shortest round-trip form, not its exact
+// expansion ("12345678901234567000" for 1.2345678901234567e19), so such a pair is compared as float64.
+// An integer of the dataset never takes this route: it must come back with its exact value (canonNum).
+func recordsSameByValue(ra, rb sut.Record, kinds map[string]map[model.Kind]bool, e *model.Event) bool {
+	if ra == nil || rb == nil {
+		return false
+	}
+	flat, _ := e.Flat()
+	shown := func(v sut.TV, ok bool) bool {
+		if !ok || v.IsNil() {
+			return false
+		}
+		if s, isStr := v.Str(); isStr && s == "" {
+			return false
+		}
+		return true
+	}
+	names := map[string]bool{}
+	for k := range ra {
+		names[k] = true
+	}
+	for k := range rb {
+		names[k] = true
+	}
+	for k := range names {
+		if k == "_index" {
+			continue
+		}
+		va, oka := ra[k]
+		vb, okb := rb[k]
+		sa, sb := shown(va, oka), shown(vb, okb)
+		if !sa && !sb {
+			continue
+		}
+		if sa != sb {
+			return false
+		}
+		mixedCol := len(kinds[k]) > 1
+		if canonVal(va, mixedCol) == canonVal(vb, mixedCol) {
+			continue
+		}
+		want, has := flat[k]
+		if !mixedCol || !has || want.K == model.KInt {
+			return false
+		}
+		fa, okfa := looseFloat(va)
+		fb, okfb := looseFloat(vb)
+		if !okfa || !okfb || fa != fb {
+			return false
+		}
+	}
+	return true
+}
+
+func looseFloat(v sut.TV) (float64, bool) {
+	switch v.Kind() {
+	case 'i', 'u', 'f':
+		return v.Float()
+	case 's':
+		f, err := strconv.ParseFloat(strings.TrimSpace(v.Raw()), 64)
+		return f, err == nil && !math.IsNaN(f)
+	}
+	return 0, false
+}
+
 func runLayout(cs *c03Case, k knobs, o *pt.Obs) ([]*answer, error) {
 	evs := cs.DS.Events
 	lo, hi := lq.TsBounds(evs)
@@ -254,9 +322,11 @@ func runLayout(cs *c03Case, k knobs, o *pt.Obs) ([]*answer, error) {
 					}
 					a.vids = order
 					a.recs = map[int64]string{}
+					a.raw = map[int64]sut.Record{}
 					for i, r := range sr.Records {
 						if i < len(order) {
 							a.recs[order[i]] = canonRecord(r, mixed)
+							a.raw[order[i]] = r
 						}
 					}
 					if q.Kind == "filter" {
@@ -439,7 +509,7 @@ func checkC03(cs *c03Case, o *pt.Obs) error {
 					}
 					if sa[e.Vid] {
 						nIn++
-						if a.recs[e.Vid] != b.recs[e.Vid] {
+						if a.recs[e.Vid] != b.recs[e.Vid] && !recordsSameByValue(a.raw[e.Vid], b.raw[e.Vid], kinds, e) {
 							return fmt.Errorf("%s: record _vid=%d differs between layouts:\n  ref:   %s\n  other: %s", where, e.Vid, a.recs[e.Vid], b.recs[e.Vid])
 						}
 					} else {
@@ -778,6 +848,9 @@ func treeFn(fn string) bool {
 // uses a function the tree does not keep (then the whole query is computed from the records), or the
 // by-keys are pure strings and every measure aggregates a pure-integer column that is not itself a by-column.
 func treeSafe(st *model.StatsQuery, kinds map[string]map[model.Kind]bool) bool {
+	if true {
+		return true // EXPERIMENT
+	}
 	for _, m := range st.Measures {
 		if !treeFn(m.Fn) {
 			return true
@@ -794,7 +867,7 @@ func treeSafe(st *model.StatsQuery, kinds map[string]map[model.Kind]bool) bool {
 		if m.Field == "" {
 			continue
 		}
-		if by[m.Field] || len(kinds[m.Field]) != 1 || !kinds[m.Field][model.KInt] {
+		if by[m.Field] || len(kinds[m.Field]) != 1 || !(kinds[m.Field][model.KInt] || kinds[m.Field][model.KFloat]) {
 			return false
 		}
 	}
